@@ -240,7 +240,12 @@ func runConcrete(p *Program, u *Unit, hs *HarnessSpec, tier string, vals []repla
 		return nil, nil, pathEnd{"unsupported", err.Error()}
 	}
 	defer solver.Close()
-	ex := &Explorer{solver: solver, stats: newStats(), maxSteps: ts.MaxSteps, maxViolPerID: 1}
+	// concrete re-execution may run native-only helper loops (e.g. searching a key for a slot): generous budget
+	steps := ts.MaxSteps
+	if steps < 400_000_000 {
+		steps = 400_000_000
+	}
+	ex := &Explorer{solver: solver, stats: newStats(), maxSteps: steps, maxViolPerID: 1}
 	ex.fixed = vals
 	if ex.fixed == nil {
 		ex.fixed = []replayVal{}
